@@ -1,0 +1,14 @@
+//go:build verif
+
+package evaluator
+
+// Contracts for the verification machinery in /verif (govc). Comment-only file:
+// compiled only with -tags verif, and even then it contains no code.
+
+// Convert forwards to values.Convert and inherits its one precondition (a target type).
+//@ func evaluator.Convert
+//@ props C01
+//@ panics nothing
+//@ requires typ: typ != 0
+//@ assigns alloc S$Val, alloc S$Slc, alloc S$Int, alloc S$Str, alloc S$RV
+//@ ensures value: result1 == nil ==> result0 != nil
